@@ -943,6 +943,9 @@ class TelnetTransport(Telnet, ProtocolTransportMixin):
     def write(self, data):
         ProtocolTransportMixin.write(self, data.replace(b"\xff", b"\xff\xff"))
 
+    def writeSequence(self, seq):
+        self.write(b"".join(seq))
+
 
 class TelnetBootstrapProtocol(TelnetProtocol, ProtocolTransportMixin):
     protocol = None
